@@ -57,7 +57,7 @@ def check(case):
     perms = (case["p1"], case["p2"])
     classes = [mode, case["basis"], case["units"], "builtin" if "builtin" in case["mixture"] else "synthetic"]
     known = []
-    fluxes, yks, pfs = [], [], []
+    fluxes, yks, pfs, counts = [], [], [], []
     for x in case["xs"]:
         c = dict(case, x=x)
         try:
@@ -74,6 +74,8 @@ def check(case):
         if not (j[0] + j[1] != 0 and 0.0 <= j[0] / (j[0] + j[1]) <= 1.0):
             raise Discard("fluxes have no valid composition")
         fluxes.append(j)
+        counts.append(len(tr.evals))
+        last_evals = list(tr.evals)
         # last iterate from the trace; without the hook (renamed internals) the flux composition stands in and the
         # tolerance below is widened by the requested precision
         yks.append(tr.evals[-1][0] if tr.evals else None)
@@ -145,21 +147,33 @@ def check(case):
             if not abs(j[i]) > 1e-3 * perms[i] * pf[i]:
                 nontrivial = False
 
-    # (i') the same through Pervaporation.ideal_diffusion_curve with membrane permeances (= the explicit ones at this temperature):
-    # its fluxes are the solver's fluxes at the REQUESTED precision, hence its permeances are those of the curve above
-    ideal = call(pv.ideal_diffusion_curve, case["T"], feed, case["perm"]["T"], case["perm"]["p"], case["precision"], "NRTL")
-    if not is_raised(ideal):
-        for k, j in enumerate(fluxes):
+    # (i') the same through Pervaporation.ideal_diffusion_curve with membrane permeances (= the explicit ones at this temperature),
+    # for the last composition: its flux is the solver's flux at the REQUESTED precision, hence its permeances those of the curve above
+    from ..observe import Trace
+    from ..solver import legit_exit_flip
+
+    k = len(feed) - 1
+    with Trace(pv, cap=200000, keep=True) as tri:
+        ideal = call(pv.ideal_diffusion_curve, case["T"], [feed[k]], case["perm"]["T"], case["perm"]["p"], case["precision"], "NRTL")
+    if not is_raised(ideal) and tri.hooked:
+        if len(tri.evals) != counts[k]:
+            # membrane permeances went through a unit round trip (one rounding): the loop exit may flip, but only at a rounding tie
+            require(legit_exit_flip(last_evals, tri.evals, case["precision"]),
+                    "ideal_diffusion_curve at precision %r used %d driving-force evaluations, the flux calculation at that precision %d, although "
+                    "the step size was not at a rounding tie with the precision", case["precision"], len(tri.evals), counts[k])
+            classes.append("ideal-curve-exit-flip")
+        else:
+            j = fluxes[k]
             tot = abs(j[0]) + abs(j[1])
             for i in (0, 1):
-                require(abs(float(ideal.partial_fluxes[k][i]) - j[i]) <= 1e-9 * abs(j[i]) + 1e-11 * tot,
-                        "ideal_diffusion_curve at precision %r: flux %d at point %d is %r, the flux calculation at that precision gives %r",
-                        case["precision"], i + 1, k, float(ideal.partial_fluxes[k][i]), j[i])
+                require(abs(float(ideal.partial_fluxes[0][i]) - j[i]) <= 1e-9 * abs(j[i]) + 1e-11 * tot,
+                        "ideal_diffusion_curve at precision %r: flux %d is %r, the flux calculation at that precision gives %r",
+                        case["precision"], i + 1, float(ideal.partial_fluxes[0][i]), j[i])
                 if math.isfinite(curve.permeances[k][i].value) and curve.permeances[k][i].value > 0:
-                    require(relerr(ideal.permeances[k][i].value, curve.permeances[k][i].value) <= 1e-6,
-                            "ideal_diffusion_curve reports permeance %r at point %d, a curve built from the same fluxes reports %r",
-                            ideal.permeances[k][i].value, k, curve.permeances[k][i].value)
-        classes.append("ideal-curve-composed")
+                    require(relerr(ideal.permeances[0][i].value, curve.permeances[k][i].value) <= 1e-6,
+                            "ideal_diffusion_curve reports permeance %r, a curve built from the same fluxes reports %r",
+                            ideal.permeances[0][i].value, curve.permeances[k][i].value)
+            classes.append("ideal-curve-composed")
 
     # (iii)+(iv) curve from permeances (any unit) -> fluxes = P*pf -> re-inversion
     unit = case["units"]
